@@ -17,6 +17,9 @@ CHECKS = {
  "C09": ("fault_enumeration", "Real servers run AOFSHRINK on generated datasets sized on the scan-batch boundaries; verif gate points park the rewrite after every key batch / id batch / before the swap while a scripted writer issues every write command against scanned, in-scan and unscanned keys; named crash points kill the process at each step of the rewrite and of the rename sequence (with and without concurrent token writers); oracles: live dump before == after the shrink, dump after restart == live dump, TTLs not shortened beyond rounding, every acknowledged token recovered after a crash.",
          "Shrink completion read from the hook arrival counter; SIGKILL keeps the page cache; known finding rename-during-shrink is matched only when the difference is confined to collections named in an applied RENAME.",
          "runtime monitoring with fault injection: gate/crash points inside the rewrite, dump differential across shrink/restart", "4/C09"),
+ "C07": ("exploration", "Histories of 2-32 concurrent connections are recorded at the client boundary (call/return times from one monotonic clock, replies) together with the append-only file; a linear-time log-order checker matches every log entry to the operation that caused it (unique tokens, per-client command-word casing), replays the log through the sequential model (each write's reply must equal the model's at its log position), checks that log order never contradicts real time and that every read / no-op write equals the model's reply at some log position inside its real-time window with cross-client monotonicity; short histories are also checked with porcupine, independently of the log; the same workload (plus live fences and background expiry) runs on a -race build, reports touching lock-guarded state and runtime fatals are violations.",
+         "kmodel as the sequential specification; harness clock; race reports are classified by stack frames (statistics/logging races are recorded, not judged).",
+         "runtime monitoring: offline log-order/linearizability checkers over recorded histories (porcupine + own checker) and the Go race detector", "4/C07"),
 }
 def main():
     old = json.load(open('/verif/MANIFEST.json'))
